@@ -1,6 +1,7 @@
 package props
 
 import (
+	"errors"
 	"math"
 	"bytes"
 	"fmt"
@@ -808,6 +809,15 @@ func exerciseDAG(c *mon.Case, st *store.Store, root cid.Cid, class string) {
 	}
 }
 
+// useError does with a returned error what callers do with errors: asks for its text (directly, not
+// through fmt, which would swallow a panic inside Error) and unwraps it.
+func useError(err error) {
+	for i := 0; err != nil && i < 8; i++ {
+		_ = err.Error()
+		err = errors.Unwrap(err)
+	}
+}
+
 func TestC13(t *testing.T) {
 	r := mon.Start(t, "C13")
 	defer r.Close()
@@ -821,11 +831,21 @@ func TestC13(t *testing.T) {
 			for i := 0; i < 500; i++ {
 				var in []byte
 				class := ""
-				switch rr.Intn(5) {
+				switch rr.Intn(6) {
 				case 0:
 					in = make([]byte, rr.Intn(40))
 					rr.Read(in)
 					class = "random"
+				case 5:
+					// a known field number carrying one of the wire types protobuf never defined (6, 7),
+					// alone or behind a well-formed prefix
+					m := msgFor(uint64(rr.Intn(6)), rr.Intn(4), rr.Intn(40))
+					in = gen.Encode(rr, m, gen.Pres{Kind: "ordered"})
+					if rr.Intn(2) == 0 {
+						in = nil
+					}
+					in = append(in, byte((1+rr.Intn(8))<<3|6+rr.Intn(2)), byte(rr.Intn(256)), byte(rr.Intn(256)))
+					class = "undefined-wire-type"
 				default:
 					m := msgFor(uint64(rr.Intn(6)), rr.Intn(128), rr.Intn(40))
 					in = gen.Encode(rr, m, gen.Pres{Kind: "permuted", Packed: rr.Intn(2) == 0, Unknown: rr.Intn(3), NonMinimal: rr.Intn(2) == 0})
@@ -861,6 +881,7 @@ func TestC13(t *testing.T) {
 				}{
 					{"DecodeUnixFSData", func() {
 						n, err := data.DecodeUnixFSData(in)
+						useError(err)
 						if err == nil {
 							if n == nil {
 								c.Violation("C13|nil-value|DecodeUnixFSData", "(nil, nil) for %x", in)
@@ -872,12 +893,14 @@ func TestC13(t *testing.T) {
 					}},
 					{"DecodeUnixTime", func() {
 						n, err := data.DecodeUnixTime(in)
+						useError(err)
 						if err == nil && n != nil {
 							data.AppendEncodeUnixTime(nil, n)
 						}
 					}},
 					{"DecodeUnixFSMetadata", func() {
 						n, err := data.DecodeUnixFSMetadata(in)
+						useError(err)
 						if err == nil && n != nil {
 							data.EncodeUnixFSMetadata(n)
 						}
